@@ -59,6 +59,17 @@ Reset ==
     /\ UNCHANGED typ
     /\ l' = l + 1
 
+\* empty messages held in maps / lists / oneof wrappers replaced by nil pointers at Go level:
+\* the abstract value must be unchanged
+PlantNil ==
+    /\ IsEvent("plantnil")
+    /\ LET e == Trace[l]
+           st == FromJ(S, typ, e.st)
+       IN /\ Verdict(e, e.ok /\ st = msg /\ e.fast_eq, TRUE, IF ~e.ok THEN "plantnil:panic" ELSE "plantnil:nil-not-empty")
+          /\ msg' = st
+    /\ UNCHANGED <<typ, rmsg>>
+    /\ l' = l + 1
+
 Marshal ==
     /\ IsEvent("marshal")
     /\ LET e == Trace[l]
@@ -201,7 +212,7 @@ Unmarshal ==
     /\ l' = l + 1
 
 Init == l = 1 /\ typ = "" /\ msg = EmptyMsg /\ rmsg = EmptyMsg /\ TLCSet(1, 0)
-Next == Load \/ Reset \/ Marshal \/ Roundtrip \/ DetN \/ AliasIn \/ AliasOut \/ ReadOnlyEv \/ Lib \/ Size \/ AppendEv \/ Unmarshal
+Next == Load \/ Reset \/ PlantNil \/ Marshal \/ Roundtrip \/ DetN \/ AliasIn \/ AliasOut \/ ReadOnlyEv \/ Lib \/ Size \/ AppendEv \/ Unmarshal
 Spec == Init /\ [][Next]_vars
 
 AllConsumed ==
